@@ -2,6 +2,7 @@
 from engine import guards as G
 from engine import mir, panics
 from . import common as K
+from . import detectors as D
 from .common import POOL, VOTOR, fshort
 
 EXPLANATION = (
@@ -128,6 +129,9 @@ def check(run):
                 exp = [f for f, v in want.items() if v == rv["variant"]]
                 o.check(fs == set(exp), "PoolImpl::%s|%s::%s" % (fn, enum.rsplit("::", 1)[-1], rv["variant"]), "%s::%s is built from .%s" % (enum.rsplit("::", 1)[-1], rv["variant"], exp[0] if exp else "?"), sp,
                         {"fields": sorted(fs)})
+                rec = [lambda a: a[0] == "is_some" and a[2] is True and any(n in (exp or []) for (ow_, n) in mir.fields_in(a[1][0]) if ow_ == adt)]
+                extra = D.extra_guards(prog, b, bb, rec)
+                o.check(not extra, "PoolImpl::%s|%s::%s|unconditional" % (fn, enum.rsplit("::", 1)[-1], rv["variant"]), "included whenever it is present (no further filter)", sp, {"extra": G.atoms_show(extra)})
         if adt == SV:
             for b in famx:
                 for c in b.calls_to("core::ops::index::Index::index"):
